@@ -54,15 +54,18 @@ def main():
         raise RuntimeError("T6 (NumPy backend symbolic execution) failed")
     t6stats = json.loads(p6.stdout.strip().splitlines()[-1])
     nprecs = json.load(open(npapi))
-    np_bad = [r for r in nprecs if r["np"].get("kind") in ("abort", "other") or r["py"].get("kind") in ("abort", "other")]
+    sprecs = json.load(open(npapi.replace("npapi", "spapi")))
+    nprecs_all = nprecs + sprecs
+    np_bad = [r for r in nprecs_all if r["np"].get("kind") in ("abort", "other") or r["py"].get("kind") in ("abort", "other")]
     if np_bad:
         raise RuntimeError(f"T6: {len(np_bad)} program points could not be described symbolically, e.g. {json.dumps(np_bad[0])[:600]}")
     from tools.vtrace import emit_nb
-    api_v, names_v, bin_v, more = emit_obj.emit(recs, ir, extra=lambda simp: dict(emit_nb.emit(nbrecs, simp), **emit_nb.emit_np(nprecs, simp)))
+    api_v, names_v, bin_v, more = emit_obj.emit(recs, ir, extra=lambda simp: dict(emit_nb.emit(nbrecs, simp), **emit_nb.emit_np(nprecs, simp),
+                                                                                   **emit_nb.emit_np(sprecs, simp, prefix="Sp", tab="sp_tab", what="T6): the SymPy backend's glue executed with the recording lib, next to the object backend")))
     for fn, txt in more.items():
         ch.append(emit.write_if_changed(os.path.join(gen, fn), txt))
     import glob
-    for stale in glob.glob(os.path.join(gen, "NbApi_*.v")) + glob.glob(os.path.join(gen, "NpApi_*.v")):
+    for stale in glob.glob(os.path.join(gen, "NbApi_*.v")) + glob.glob(os.path.join(gen, "NpApi_*.v")) + glob.glob(os.path.join(gen, "SpApi_*.v")):
         if os.path.basename(stale) not in more:
             for ext in ("", "o", "ok", "os"):
                 if os.path.exists(stale + ext):
